@@ -57,6 +57,10 @@ type RWMutex struct {
 	real    rs.RWMutex
 	writer  bool
 	readers int
+	// pending: writers that called Lock and wait for the readers to leave. As in sync.RWMutex, a pending writer keeps NEW
+	// readers out ("a blocked Lock call excludes new readers from acquiring the lock"): this is what turns recursive read
+	// locking into a deadlock, so the model must have it.
+	pending int
 }
 
 func (m *RWMutex) Lock() {
@@ -64,7 +68,9 @@ func (m *RWMutex) Lock() {
 		m.real.Lock()
 		return
 	}
+	m.pending++
 	vsched.Block("RWMutex.Lock", func() bool { return !m.writer && m.readers == 0 })
+	m.pending--
 	m.writer = true
 }
 
@@ -84,7 +90,7 @@ func (m *RWMutex) RLock() {
 		m.real.RLock()
 		return
 	}
-	vsched.Block("RWMutex.RLock", func() bool { return !m.writer })
+	vsched.Block("RWMutex.RLock", func() bool { return !m.writer && m.pending == 0 })
 	m.readers++
 }
 
